@@ -9,6 +9,9 @@ class _Solver:
         if _peers.touch("solver_new"):
             raise RuntimeError("simulated solver failure (constructor)")
         self.clauses = []
+        self._norm = []
+        self._free = set()
+        self._empty = False
         self.nv = 0
         self.model = None
         self.status = None
@@ -27,6 +30,18 @@ class _Solver:
             if abs(l) > self.nv:
                 self.nv = abs(l)
         self.clauses.append(clause)
+        self._add_norm(clause)
+
+    def _add_norm(self, clause):
+        st = set(clause)
+        for l in st:
+            if -l in st:
+                self._free.update(abs(x) for x in st if -x in st)
+                return
+        if not st:
+            self._empty = True
+            return
+        self._norm.append(list(dict.fromkeys(clause)))
 
     def append_formula(self, formula, no_return=True):
         for c in getattr(formula, "clauses", formula):
@@ -43,8 +58,10 @@ class _Solver:
         if _peers.touch("solve"):
             raise RuntimeError("simulated solver failure (solve)")
         ctx.solver_stats["solve_calls"] += 1
-        cls = self.clauses + [[int(a)] for a in assumptions]
-        model = _dpll_policy(self.nv, cls, ctx)
+        if self._empty:
+            model = None
+        else:
+            model = _dpll_policy(self.nv, self._norm + [[int(a)] for a in assumptions], self._free, ctx)
         self.model = model
         self.status = model is not None
         ctx.solver_stats["sat" if self.status else "unsat"] += 1
@@ -67,24 +84,9 @@ class _Solver:
         return False
 
 
-def _dpll_policy(nv, clauses, ctx):
+def _dpll_policy(nv, norm, free, ctx):
     rng = ctx.rng
     policy = ctx.policy
-    # normalise: drop tautologies (remember their variables as "free"), dedupe literals
-    free = set()
-    norm = []
-    for c in clauses:
-        s = set(c)
-        taut = False
-        for l in s:
-            if -l in s:
-                taut = True
-                free.add(abs(l))
-        if taut:
-            continue
-        if not s:
-            return None
-        norm.append(list(dict.fromkeys(c)))
     vs = list(range(1, nv + 1))
     if policy == "prefer_true":
         order, pol = vs, [1] * (nv + 1)
@@ -100,7 +102,7 @@ def _dpll_policy(nv, clauses, ctx):
             order = [v for v in perm if v not in free] + [v for v in perm if v in free]
         else:  # inputs_first
             order = [v for v in perm if v in free] + [v for v in perm if v not in free]
-    res = _dpll(nv, norm, order, pol, 3000)
+    res = _dpll(nv, norm, order, pol, 40)
     if res == "budget":
         ctx.solver_stats["fallback"] += 1
         order2 = [v for v in order if v in free] + [v for v in order if v not in free]
@@ -109,22 +111,19 @@ def _dpll_policy(nv, clauses, ctx):
 
 
 def _dpll(nv, clauses, order, pol, budget):
-    assign = [0] * (nv + 1)
-    watches = {}
-    for v in range(1, nv + 1):
-        watches[v] = []
-        watches[-v] = []
-    cls = [list(c) for c in clauses]
+    # val is indexed by literal (negative indices address the upper half): 1 true, -1 false, 0 free
+    val = [0] * (2 * nv + 2)
+    watches = [[] for _ in range(2 * nv + 2)]
+    cls = clauses   # literal order inside a clause is permuted by the watch scheme; harmless
     trail = []
     for ci, c in enumerate(cls):
         if len(c) == 1:
             l = c[0]
-            v = abs(l)
-            val = 1 if l > 0 else -1
-            if assign[v] == 0:
-                assign[v] = val
+            if val[l] == 0:
+                val[l] = 1
+                val[-l] = -1
                 trail.append(l)
-            elif assign[v] != val:
+            elif val[l] == -1:
                 return None
         else:
             watches[c[0]].append(ci)
@@ -132,9 +131,8 @@ def _dpll(nv, clauses, order, pol, budget):
 
     def propagate(qhead):
         while qhead < len(trail):
-            lit = trail[qhead]
+            neg = -trail[qhead]
             qhead += 1
-            neg = -lit
             wl = watches[neg]
             new_wl = []
             n = len(wl)
@@ -144,29 +142,31 @@ def _dpll(nv, clauses, order, pol, budget):
                 idx += 1
                 c = cls[ci]
                 if c[0] == neg:
-                    c[0], c[1] = c[1], c[0]
+                    c[0] = c[1]
+                    c[1] = neg
                 a = c[0]
-                va = assign[abs(a)]
-                if (va == 1 and a > 0) or (va == -1 and a < 0):
+                va = val[a]
+                if va == 1:
                     new_wl.append(ci)
                     continue
                 found = False
                 for k in range(2, len(c)):
                     b = c[k]
-                    vb = assign[abs(b)]
-                    if vb == 0 or (vb == 1 and b > 0) or (vb == -1 and b < 0):
-                        c[1], c[k] = b, neg
+                    if val[b] != -1:
+                        c[1] = b
+                        c[k] = neg
                         watches[b].append(ci)
                         found = True
                         break
                 if found:
                     continue
                 new_wl.append(ci)
-                if va != 0:  # a is false -> conflict
+                if va == -1:  # conflict
                     new_wl.extend(wl[idx:])
                     watches[neg] = new_wl
                     return -1
-                assign[abs(a)] = 1 if a > 0 else -1
+                val[a] = 1
+                val[-a] = -1
                 trail.append(a)
             watches[neg] = new_wl
         return qhead
@@ -179,34 +179,39 @@ def _dpll(nv, clauses, order, pol, budget):
     conflicts = 0
     n_order = len(order)
     while True:
-        while pos < n_order and assign[order[pos]] != 0:
+        while pos < n_order and val[order[pos]] != 0:
             pos += 1
         if pos >= n_order:
-            return _model(assign, pol, nv)
+            return _model(val, pol, nv)
         v = order[pos]
         lit = v if pol[v] == 1 else -v
         levels.append((len(trail), pos, lit, False))
-        assign[v] = 1 if lit > 0 else -1
+        val[lit] = 1
+        val[-lit] = -1
         trail.append(lit)
         q = propagate(len(trail) - 1)
         while q == -1:
             conflicts += 1
             if budget is not None and conflicts > budget:
                 return "budget"
-            # backtrack to the last unflipped decision
             while levels and levels[-1][3]:
                 tl, p, l, _ = levels.pop()
                 while len(trail) > tl:
-                    assign[abs(trail.pop())] = 0
+                    x = trail.pop()
+                    val[x] = 0
+                    val[-x] = 0
             if not levels:
                 return None
             tl, p, l, _ = levels.pop()
             while len(trail) > tl:
-                assign[abs(trail.pop())] = 0
+                x = trail.pop()
+                val[x] = 0
+                val[-x] = 0
             nl = -l
             levels.append((tl, p, nl, True))
             pos = p
-            assign[abs(nl)] = 1 if nl > 0 else -1
+            val[nl] = 1
+            val[-nl] = -1
             trail.append(nl)
             q = propagate(len(trail) - 1)
 
